@@ -158,15 +158,20 @@ pub fn norm(path: &str) -> Result<String, i32> {
     for comp in path.split('/') {
         match comp {
             "" | "." => {}
-            c => {
-                if c.len() > 255 {
-                    return Err(libc::ENAMETOOLONG);
-                }
-                parts.push(c)
-            }
+            c => parts.push(c),
         }
     }
     Ok(parts.join("/"))
+}
+
+/// errno of "this entry does not exist": ENAMETOOLONG if the file system could not even hold
+/// such a name, ENOENT otherwise.
+pub fn missing_errno(p: &str) -> i32 {
+    if p.rsplit('/').next().is_some_and(|c| c.len() > 255) {
+        libc::ENAMETOOLONG
+    } else {
+        libc::ENOENT
+    }
 }
 
 pub fn nul_error() -> io::Error {
@@ -221,7 +226,7 @@ impl SimOs {
             }
             cur.push_str(comp);
             match self.nodes.get(&cur) {
-                None => return Err(libc::ENOENT),
+                None => return Err(missing_errno(&cur)),
                 Some(Node::File(_)) => return Err(libc::ENOTDIR),
                 Some(Node::Dir) => {}
             }
